@@ -154,6 +154,18 @@ CHECKS = {
                      "returned exactly their own addresses without network traffic; reverse lookups asked exactly the "
                      "reverse-map name and returned PTR targets of the answer.",
                 note="Owner names of address records follow the CNAME chain (c-ares deliberately does not check owners)."),
+    "C14": dict(engine="simnet", category="fault_enumeration", design_ref="DESIGN.md §4 C14",
+                technique="runtime monitoring under fault injection: counting allocator with a ledger installed through "
+                          "ares_library_init_mem, every allocation index of each deterministic scenario failed in turn, "
+                          "under ASan+UBSan with the request/descriptor/index monitors of the simulator",
+                text="Held on the scenario family enumerated (22 kinds x variants; every allocation made between "
+                     "ares_init_options and the end of ares_destroy, one failure per run, tens of thousands of runs quick): no "
+                     "sanitizer report or abort, every request exactly one callback, nothing stuck, descriptor protocol and "
+                     "query indexes intact, ledger empty after destroy, no free of an unknown block, a fresh query after the "
+                     "failure succeeded, and a request reporting success brought no other result than without the failure "
+                     "(address lookups may bring fewer addresses).",
+                note="One failure per run (the statement's quantifier); allocation sequences are deterministic in the simulator, so "
+                     "the enumeration is exhaustive for each listed scenario, not for scenarios outside the family."),
     "C15": dict(engine="cfg", category="exploration", design_ref="DESIGN.md §4 C15",
                 technique="runtime monitoring: generated/junk configuration text through the real init/reinit path with "
                           "link-time redirected files+environment, effective-configuration read-back, range oracle, metamorphic "
